@@ -279,7 +279,13 @@ class AstToSqlVisitor(visitor.NodeVisitor):
             if suffix:
                 res = res + f" || '{suffix}'"
         else:
-            res = str(arg.val).replace("%", "%%").replace("_", "__")  # type: ignore
+            if not isinstance(arg, ast._Literal) or isinstance(arg, (ast.Null, ast.List)):
+                raise exceptions.ArgumentTypeException(
+                    None, "String", type(arg).__name__
+                )
+            # The value ends up inside a SQL string constant: double single quotes.
+            res = str(arg.val).replace("'", "''")  # type: ignore
+            res = res.replace("%", "%%").replace("_", "__")
             res = "'" + prefix + res + suffix + "'"
         return res
 
